@@ -277,3 +277,38 @@ func VK06bDeletesAcrossRestart() {
 
 var _ = io.EOF
 var _ = os.ErrNotExist
+
+// K05c: concurrent uploads: two claims-like blobs that need the same key, and the key, are
+// received by three goroutines; every lock acquisition is a scheduling point. Whatever the
+// interleaving, once all three calls returned and the index drained, everything is indexed.
+func VK05cConcurrentUploads() {
+	vInstall()
+	w := &vWorld{refs: []blob.Ref{blob.VerifSmallRef(10), blob.VerifSmallRef(11), blob.VerifSmallRef(12)}, deps: [][]int{nil, {0}, {0}}}
+	vW = w
+	kv, src := &vmodel.KV{}, &vmodel.Store{}
+	ix := vNewIndex(kv, src)
+	vrt.PreemptAtLocks(true)
+	vrt.Schedules(10 + 3*vrt.Tier())
+	// uploads first store the blob, then feed the index (like a blob store with an index sync)
+	done := make(chan bool, 3)
+	for _, i := range vPerm(3) {
+		i := i
+		go func() {
+			vDeliver(ix, src, w.refs[i])
+			done <- true
+		}()
+	}
+	for k := 0; k < 3; k++ {
+		<-done
+	}
+	vrt.PreemptAtLocks(false)
+	vrt.Quiesce()
+	for i := range w.refs {
+		have, err := kv.Get("have:" + w.refs[i].String())
+		vrt.Assert(err == nil && have == "1|indexed", "after concurrent uploads of a blob set with all dependencies, every blob ends up indexed")
+	}
+	for _, k := range kv.Keys {
+		vrt.Assert(len(k) < 8 || k[:8] != "missing|", "no missing-dependency row survives concurrent uploads of a complete set")
+	}
+	vrt.Assert(len(ix.needs) == 0, "nothing stays pending after concurrent uploads of a complete set")
+}
